@@ -48,15 +48,22 @@ class _Slot:
             pass
 
 
-def robust_map(fn, jobs, procs=14, timeout=240):
+def robust_map(fn, jobs, procs=14, timeout=240, deadline=None):
+    """deadline (seconds from now): jobs not started by then are returned as {"skipped": True}."""
     mp = multiprocessing.get_context("fork")
     jobs = list(jobs)
     out = [None] * len(jobs)
     nxt = 0
     done = 0
+    t_start = time.time()
     slots = [_Slot(mp, fn) for _ in range(min(procs, max(1, len(jobs))))]
     try:
         while done < len(jobs):
+            if deadline is not None and time.time() - t_start > deadline and nxt < len(jobs):
+                for i in range(nxt, len(jobs)):
+                    out[i] = {"skipped": True}
+                    done += 1
+                nxt = len(jobs)
             for k, s in enumerate(slots):
                 if s.job is None and nxt < len(jobs):
                     s.job, s.t0 = nxt, time.time()
